@@ -442,7 +442,9 @@ def driver_case(draw):
     driver = draw(st.sampled_from(["Canonical", "Isobaric", "Isotension", "GrandCanonical", "HamiltonianCanonical"]))
     n = draw(st.integers(2, 5))
     pos = draw(st.lists(st.lists(fl(0.5, 4.5), min_size=3, max_size=3), min_size=n, max_size=n))
-    case = {"driver": driver, "seed": draw(st.integers(1, 2 ** 32)), "pos": pos, "T0": draw(log10_floats(1.5, 4))}
+    case = {"driver": driver, "seed": draw(st.integers(1, 2 ** 32)), "pos": pos, "T0": draw(log10_floats(1.5, 4)),
+            # constraints remove degrees of freedom, not particles: N in the rule stays the number of atoms
+            "constraint": draw(st.sampled_from([None, None, "FixAtoms", "FixCom"])) if driver != "GrandCanonical" else None}
     setters = ["temperature"]
     if driver in ("Isobaric", "Isotension"):
         setters.append("pressure")
@@ -470,7 +472,9 @@ def driver_case(draw):
                 val = draw(st.integers(0, 6))
             ops.append(["set", name, val])
         else:
-            ops.append(["trial", draw(st.integers(0, 1))])
+            # third field: the user's geometric check refuses every attempt of this trial (it then never reaches the
+            # criteria and must leave nothing behind for the next one)
+            ops.append(["trial", draw(st.integers(0, 1)), draw(st.integers(0, 4)) == 0])
     if not any(o[0] == "trial" for o in ops):
         ops.append(["trial", 0])
     case["ops"] = ops
@@ -491,6 +495,14 @@ def run_driver(case):
     n = len(case["pos"])
     atoms = Atoms("Ar" * n, positions=case["pos"], cell=[5.0, 5.0, 5.0], pbc=True)
     atoms.calc = ModelCalc("pair", PAIR, style="caching")
+    if case.get("constraint") == "FixAtoms":
+        from ase.constraints import FixAtoms
+
+        atoms.set_constraint(FixAtoms(indices=[0]))
+    elif case.get("constraint") == "FixCom":
+        from ase.constraints import FixCom
+
+        atoms.set_constraint(FixCom())
     log = []
     model = {"temperature": case["T0"], "pressure": 0.01, "external_stress": np.eye(3) * 0.01, "chemical_potential": 0.0,
              "accessible_volume": 125.0, "number_of_exchange_particles": n}
@@ -592,6 +604,7 @@ def run_driver(case):
             setters_seen.append(name)
             continue
         which = op[1]
+        refuse = len(op) > 2 and bool(op[2]) and "veto" not in ke_box
         if "veto" in ke_box:
             # every second Hamiltonian trial has its first attempt refused by the user's geometric check
             ke_box["veto"]["left"] = 1 if (len(log) % 2 == 1) else 0
@@ -599,6 +612,13 @@ def run_driver(case):
             mc.moves[f"m{i}"].probability = 1.0 if i == which else 0.0
         before = (atoms.positions.copy(), atoms.cell.array.copy(), atoms.numbers.copy())
         n_log = len(log)
+        target = mc.moves[f"m{which}"].move
+        if refuse and hasattr(target, "check_move"):
+            saved_check = target.check_move
+            target.check_move = lambda *_a, **_k: False
+            labels.append("trial-refused-by-check")
+        else:
+            refuse = False
         try:
             with warnings.catch_warnings():
                 warnings.simplefilter("ignore")
@@ -608,6 +628,9 @@ def run_driver(case):
         except Exception as exc:
             return {"labels": labels + ["raised"], "nontrivial": True,
                     "violation": {"kind": f"driver:raises:{driver}:{type(exc).__name__}", "detail": f"{type(exc).__name__}: {exc}"}}
+        if refuse:
+            # (a deletion does not consult the geometric check: such a trial is judged like any other)
+            target.check_move = saved_check
         if len(log) == n_log:
             labels.append("trial-not-evaluated")
             continue
